@@ -248,3 +248,22 @@ def ret_deref(f, ret):
                         and blk[i - 1].targets[0].id == v.id:
                     return blk[i - 1].value
     return v
+
+
+def expand_locals(ctx, f, expr, depth=3):
+    """copy of `expr` in which every local that is bound exactly once (to an expression) is replaced by that
+    expression: `n = len(key); validate_length(branch, n * 8)` reads `validate_length(branch, len(key) * 8)`"""
+    import copy
+    binds = ctx.E.bindings(f)
+
+    class R(ast.NodeTransformer):
+        def __init__(self, d):
+            self.d = d
+
+        def visit_Name(self, n):
+            if isinstance(n.ctx, ast.Load) and n.id not in f.all_params() and self.d > 0:
+                bs = binds.get(n.id) or []
+                if len(bs) == 1 and isinstance(bs[0], ast.expr):
+                    return R(self.d - 1).visit(copy.deepcopy(bs[0]))
+            return n
+    return R(depth).visit(copy.deepcopy(expr))
